@@ -174,7 +174,12 @@ static int consume_int(const char *str, uint32_t *p_index, int *p_val)
         } else if ('0' <= c && c <= '9') {
             /* Value. */
             flag = 'v';
-            val = val * 10 + (int)(c - '0');
+            int digit = (int)(c - '0');
+            if (val > (INT_MAX - digit) / 10) {
+                /* Failed. The value does not fit in int. */
+                return 0;
+            }
+            val = val * 10 + digit;
         } else {
             /* Encounters a symbol. */
             if (flag == 'v') {
